@@ -113,10 +113,31 @@ func TestWriteFault(t *testing.T) {
 				if k < 0 || k > len(full) {
 					continue
 				}
-				for mode := 0; mode < 5; mode++ {
+				for mode := 0; mode < 6; mode++ {
 					// (mode 4: part of the data is taken, the error says "temporary", the device recovers)
 					short, transient := mode == 1 || mode == 4, mode == 2 || mode == 4
 					if transient && k == len(full) {
+						continue
+					}
+					if mode == 5 {
+						// a fixed-size destination: a write that does not fit is refused whole, a later
+						// smaller one may still fit. The error is demanded, and that what was taken is a
+						// prefix (a serializer that goes on writing after a refusal leaves a hole).
+						if k == len(full) {
+							continue
+						}
+						sw, err, pi := runInto(c, in, core.WriterPlan{FailAt: k, Capacity: true, ReaderFrom: rf})
+						if pi != nil {
+							c.CheckTotal(in.name, 0, pi, 0)
+						}
+						if c.Oracle("C19") {
+							if sw.Refused > 0 && err == nil {
+								c.Violation("write-failure-swallowed", in.name, "a destination with room for %d of %d bytes refused %d write(s): serializer returned nil", k, len(full), sw.Refused)
+							}
+							if !bytes.HasPrefix(full, sw.Accepted) {
+								c.Violation("not-a-prefix", in.name, "a destination with room for %d bytes holds %d bytes that are not a prefix of the fault-free output (writing went on after a refused write)", k, len(sw.Accepted))
+							}
+						}
 						continue
 					}
 					var errValue error
@@ -201,7 +222,7 @@ func TestWriteFault(t *testing.T) {
 				c.Probe("real file destination under a size quota")
 			}
 			if len(full) <= limit {
-				core.ExhaustiveDone("C19: every failure position k in [0,len] x {error, short write, one-shot failure, sentinel error value, partial one-shot failure} for one artifact", 1)
+				core.ExhaustiveDone("C19: every failure position k in [0,len] x {error, short write, one-shot failure, sentinel error value, partial one-shot failure, fixed-size destination} for one artifact", 1)
 			}
 			c.Outcome("done")
 			c.Sig("%s/rf%v/len%d", in.name, rf, len(full)/64)
